@@ -53,9 +53,19 @@ PROPS = {
     'C16': dict(
         verus=['time'],
         kani=[],
+        exec=[dict(name='c16_log_interval', label='enumerated by execution: all 256 i8 log-interval values (191 in the representable/defined range n <= 65) on the real functions, compared with exact integers; not deductive')],
         assumptions=[
             'contracts of the `fixed` crate operations (shim/fixed.rs) are assumed, not verified: + - neg abs from_bits to_bits frac to_num to_fixed lossy_into lossless_try_into as exact integer formulas on bit patterns with representability preconditions',
             'f64 -> fixed conversions are uninterpreted in Verus; the log-interval clause (2^n s) is decided by executing the real function on all 256 i8 inputs (labelled enumerated, not deductive)',
+        ],
+    ),
+    'C18': dict(
+        verus=['overlay'],
+        kani=[],
+        assumptions=[
+            'f64 arithmetic and f64->fixed conversion are uninterpreted in Verus (ppm is seen only through f64_scaled(ppm, 32)); the rate law is therefore proved as: reading = r + shift + fixed((r - last_sync) * ppm) / 10^6 with the exact truncation rules of the fixed crate',
+            'the underlying clock reads within [0, 2^48 s); readings and intermediates representable (stated as preconditions)',
+            'contracts of Time/Duration operators are those verified in unit time (same extracted items)',
         ],
     ),
     'C04': dict(
